@@ -37,6 +37,7 @@ theorem evalD_zero (ρ : Nat → ℝ) (e : Ex) : e.evalD ρ (fun _ => 0) = 0 := 
   | acos a iha => simp [evalD, iha]
   | ln a iha => simp [evalD, iha]
   | atan2 y x ihy ihx => simp [evalD, ihy, ihx]
+  | clamp1 a iha => simp [evalD, iha]
 
 theorem evalD_add (ρ δ₁ δ₂ : Nat → ℝ) (e : Ex) :
     e.evalD ρ (fun n => δ₁ n + δ₂ n) = e.evalD ρ δ₁ + e.evalD ρ δ₂ := by
@@ -57,6 +58,7 @@ theorem evalD_add (ρ δ₁ δ₂ : Nat → ℝ) (e : Ex) :
   | acos a iha => simp only [evalD, iha]; ring
   | ln a iha => simp only [evalD, iha]; ring
   | atan2 y x ihy ihx => simp only [evalD, ihy, ihx]; ring
+  | clamp1 a iha => simp only [evalD, iha]; split_ifs <;> ring
 
 theorem evalD_smul (ρ δ : Nat → ℝ) (c : ℝ) (e : Ex) :
     e.evalD ρ (fun n => c * δ n) = c * e.evalD ρ δ := by
@@ -77,6 +79,7 @@ theorem evalD_smul (ρ δ : Nat → ℝ) (c : ℝ) (e : Ex) :
   | acos a iha => simp only [evalD, iha]; ring
   | ln a iha => simp only [evalD, iha]; ring
   | atan2 y x ihy ihx => simp only [evalD, ihy, ihx]; ring
+  | clamp1 a iha => simp only [evalD, iha]; split_ifs <;> ring
 
 theorem evalD_finset_sum (ρ : Nat → ℝ) (e : Ex) (S : Finset Nat) (f : Nat → Nat → ℝ) :
     e.evalD ρ (fun n => ∑ v ∈ S, f v n) = ∑ v ∈ S, e.evalD ρ (f v) := by
